@@ -154,6 +154,29 @@ CLAIMED = {
         "contract-based deductive verification (own VC generator over the real source -> z3 nlsat) + bounded numeric grids for calculus / eigen-decomposition clauses",
         "DESIGN.md §3 C18",
     ),
+    "C02": (
+        "proof",
+        "The REAL GraphBuilder.build_model / Model.__init__ / Dist.update / _reduced_sum / Value.value.fset are executed symbolically on "
+        "enumerated graph shapes (hierarchy with weak intermediate variable, diamond with transient node and leaf, flat, auto-transformed "
+        "parameter, user-supplied total nodes, flag combinations) with ALL values, density and calculation functions symbolic: log_prob = sum "
+        "over all distribution nodes of the log-density at the current values, log_lik / log_prior the observed / parameter parts, "
+        "prob = lik + prior, per-observation vs summed storage give equal totals, user nodes forwarded unchanged - after build and after "
+        "re-assigning every value (73 obligations, z3 linear reals + uninterpreted functions). Bounded: numeric comparison with TFP.",
+        "graph shapes enumerated (not all DAGs); A-REAL sums; x.sum() = sum of entries; A-NX topological sort; A-TFP for the transformed shape.",
+        "contract-based deductive verification: symbolic execution of the real builder/model code on enumerated shapes with fully symbolic values (own VC generator, z3)",
+        "DESIGN.md §3 C02",
+    ),
+    "C14": (
+        "proof",
+        "Real Var.transform (instance / class with a model variable as argument / default), auto-transform in build_model and the deprecated "
+        "GraphBuilder.transform executed symbolically with TFP stubs obeying the documented laws: new variable strong with value b^-1(v), "
+        "original = b(new) (value unchanged), new log-density at t = old log-density at b(t) + fldj_b(t) with the CURRENT bijector parameters "
+        "(re-assigned inputs), parameter flag moved (not set), observed/role untouched, per_obs kept, original without distribution; rejection "
+        "cases (78 obligations). Bounded: numeric identity on 6 distributions x entry points incl. parameter-dependent default bijectors.",
+        "A-TFP (Invert, TransformedDistribution.log_prob law, b(b^-1(v)) = v); one graph shape (x ~ D(rate=p)); S4' objects created by a bare expression statement are collected at once.",
+        "contract-based deductive verification: symbolic execution of the real transformation code against TFP contracts (own VC generator, z3)",
+        "DESIGN.md §3 C14",
+    ),
 }
 
 NOT_APPLICABLE = {
